@@ -95,10 +95,17 @@ def gen_case(rng):
     qs.add(ts[-1] + 37.5)
     adds = []
     known = []
+    known_depths = []
     for _ in range(rng.randrange(0, 5)):
         m = rng.randrange(1, 5)
         if rng.random() < 0.5:
-            ds = [rng.randrange(0, 200) / 4.0 for _ in range(m)]
+            # later logs are sampled at depths that exist already (in any order) as often as at new ones
+            ds = []
+            for _ in range(m):
+                x = rng.choice(known_depths) if known_depths and rng.random() < 0.6 else rng.randrange(0, 200) / 4.0
+                if x not in ds:
+                    ds.append(x)
+            known_depths += [x for x in ds if x not in known_depths]
             adds.append({"kind": "depth", "depth": ds})
         else:
             fs = sorted(rng.randrange(0, 200) / 4.0 for _ in range(m))
@@ -117,7 +124,14 @@ def gen_case(rng):
                     uniq.append(r_)
             adds.append({"kind": "interval", "from_to": uniq})
             known += uniq
-    return {"collar": collar, "surveys": rows, "queries": sorted(qs), "adds": adds}
+    # additions are handed to add_data one at a time or several in one call (one dictionary with several entries):
+    # inside one call the depth table is not re-sorted between the entries
+    batches, i = [], 0
+    while i < len(adds):
+        n = 1 if rng.random() < 0.5 else rng.randrange(2, 4)
+        batches.append(list(range(i, min(len(adds), i + n))))
+        i += n
+    return {"collar": collar, "surveys": rows, "queries": sorted(qs), "adds": adds, "batches": batches}
 
 
 def run_case(ctx, ws, case, idx):
@@ -167,26 +181,33 @@ def run_case(ctx, ws, case, idx):
         failures.append((f"beyond the last survey: moved {pb[1] - pb[0]} for 3 m, last leg direction {last_dir}", "C18:beyond"))
     # ---- data additions: vertices at their depth, cells joining from/to, values attached
     truth = {}
-    for k, add in enumerate(case["adds"]):
-        name = f"d{k}"
-        try:
+    for batch in case.get("batches") or [[k] for k in range(len(case["adds"]))]:
+        entries = {}
+        for k in batch:
+            add = case["adds"][k]
+            name = f"d{k}"
             if add["kind"] == "depth":
                 # the expectation is fixed before the call, from the case's own numbers: the library is handed copies
                 # (it may adjust the arrays it is given to the depths it matched)
                 ds = np.array(add["depth"], dtype=float)
                 vals = ds * 10.0 + k
                 truth[name] = ("depth", dict(zip(ds.tolist(), vals.tolist())))
-                dh.add_data({name: {"depth": ds.copy(), "values": vals.copy()}})
+                entries[name] = {"depth": ds.copy(), "values": vals.copy()}
             else:
                 ft = np.array(add["from_to"], dtype=float)
                 vals = ft[:, 0] * 10.0 + k + 0.5
                 truth[name] = ("interval", {tuple(r): v for r, v in zip(ft.tolist(), vals.tolist())})
-                dh.add_data({name: {"from-to": ft.copy(), "values": vals.copy()}})
+                entries[name] = {"from-to": ft.copy(), "values": vals.copy()}
+            ctx.count("add:" + add["kind"])
+        ctx.count(f"add_data-call-with-{min(len(batch), 3)}{'+' if len(batch) > 3 else ''}-entries")
+        try:
+            dh.add_data(entries)
         except Exception as e:  # noqa: BLE001
-            failures.append((f"add_data {add} raised {type(e).__name__}: {str(e)[:80]}", f"C18:add-raises-{type(e).__name__}"))
+            kinds = "+".join(case["adds"][k]["kind"] for k in batch)
+            failures.append((f"add_data of {kinds} raised {type(e).__name__}: {str(e)[:80]}", f"C18:add-raises-{type(e).__name__}"))
             break
-        ctx.count("add:" + add["kind"])
-        failures += check_data(dh, truth, f"after addition {k} ({add['kind']})")
+        kinds = sorted({case["adds"][k]["kind"] for k in batch})
+        failures += check_data(dh, truth, f"after the call adding {batch} ({'+'.join(kinds)})")
     model_line = [{"m": "survey", "op": "desurvey", "collar": fr(case["collar"][a]), "t": [fr(x) for x in t],
                    "d": [fr(x) for x in comps[a]], "xs": [fr(x) for x in q]} for a in range(3)]
     nontrivial = len(case["surveys"]) >= 2 and len({(r[1], r[2]) for r in case["surveys"]}) > 1
